@@ -497,7 +497,7 @@ def _keygen(func, ignored, /, *args, **kwds):
     if varkwds_to_ignore:
         # '**' selects the extra keywords only: keyword-only parameters are named parameters
         try:
-            kwonly = set(k for (k,p) in inspect.signature(func).parameters.items() if p.kind == p.KEYWORD_ONLY)
+            kwonly = set(k for (k,p) in inspect.signature(func, follow_wrapped=False).parameters.items() if p.kind == p.KEYWORD_ONLY)
         except (TypeError, ValueError):
             kwonly = set()
         [user_kwds.pop(k) for k in kwds if k not in explicitly_named and k not in kwonly]
